@@ -30,6 +30,8 @@ type Path struct {
 	isnil map[string]bool // value -> known to be nil (true) / known to be non-nil (false)
 	eq    map[string]constant.Value
 	neq   map[string][]constant.Value
+	dc    []dEdge         // integer difference constraints (arith.go)
+	dseen map[string]bool // values whose definition is already recorded in dc
 }
 
 // Resolve replaces phis of visited blocks by the value that flowed in along
@@ -291,6 +293,7 @@ func (p *Path) Eval(v ssa.Value) (val, ok bool) {
 				}
 			}
 		}
+		return p.evalArith(x)
 	}
 	return false, false
 }
@@ -304,6 +307,7 @@ func (p *Path) assume(v ssa.Value, val bool) {
 			p.assume(x.X, !val)
 		}
 	case *ssa.BinOp:
+		p.assumeArith(x, val)
 		if x.Op == token.EQL || x.Op == token.NEQ {
 			a, b := p.Resolve(x.X), p.Resolve(x.Y)
 			var other ssa.Value
@@ -345,6 +349,13 @@ func (p *Path) clone() *Path {
 		isnil:  make(map[string]bool, len(p.isnil)),
 		eq:     make(map[string]constant.Value, len(p.eq)),
 		neq:    make(map[string][]constant.Value, len(p.neq)),
+		dc:     append([]dEdge(nil), p.dc...),
+	}
+	if len(p.dseen) > 0 {
+		q.dseen = make(map[string]bool, len(p.dseen))
+		for k, v := range p.dseen {
+			q.dseen[k] = v
+		}
 	}
 	for k, v := range p.phi {
 		q.phi[k] = v
@@ -489,7 +500,33 @@ func EnumPathsSeed(start *ssa.BasicBlock, idx int, limit int, maxVisits int, see
 		defer func() { visited[b]-- }()
 		p.Blocks = append(p.Blocks, b)
 		if isLoopHead(b) && !(b == start && from == nil) {
+			// an integer loop variable starts the iteration with the value that flowed in
+			type carried struct {
+				ph *ssa.Phi
+				in string
+			}
+			var cs []carried
+			if ArithFacts && from != nil {
+				for k, pr := range b.Preds {
+					if pr != from {
+						continue
+					}
+					for _, in := range b.Instrs {
+						ph, ok := in.(*ssa.Phi)
+						if !ok {
+							break
+						}
+						if key, ok := p.term(ph.Edges[k], 0); ok {
+							cs = append(cs, carried{ph, key})
+						}
+					}
+					break
+				}
+			}
 			p.enter[b]++
+			for _, c := range cs {
+				p.addEQ(p.canonOf(c.ph), c.in, 0)
+			}
 		}
 		if from != nil && !isLoopHead(b) {
 			// phis of loop heads stay symbolic: the value entering from outside
